@@ -23,11 +23,15 @@ package main
 
 import (
 	"bytes"
+	"context"
 	"encoding/hex"
 	"errors"
 	"fmt"
 	"math"
+	"os"
+	"os/exec"
 	"reflect"
+	"runtime/debug"
 	"strings"
 	"time"
 	"unsafe"
@@ -751,7 +755,54 @@ func zclass(outcome string) string {
 	return "error"
 }
 
+// ---- a value that contains itself (recorded finding host-crash:cyclic-value-in-js): showInJS and
+// showInJSON follow pointers without bound; the Go runtime ends the process with a stack overflow,
+// which no recover can catch. The probe therefore runs in a child process with a small stack limit.
+
+type ZCycle struct {
+	V    int
+	Next *ZCycle
+}
+
+func cyclicProbe(c *Ctx) {
+	for _, file := range []string{"t.js", "t.json"} {
+		ctx, cancel := context.WithTimeout(context.Background(), 60*time.Second)
+		cmd := exec.CommandContext(ctx, os.Args[0], "C05-cyclic-child", "-arg", file)
+		var stderr bytes.Buffer
+		cmd.Stderr = &stderr
+		err := cmd.Run()
+		cancel()
+		c.Count("evaluations")
+		if err != nil && strings.Contains(stderr.String(), "stack overflow") {
+			c.Fail("host-crash:cyclic-value-in-js", map[string]any{"zoo_value": "cyclic", "file": file, "source": "{{ v }}",
+				"gotype": "*ZCycle with Next pointing to itself", "outcome": "the process dies: fatal error: stack overflow"})
+		} else if err != nil {
+			c.Fail("host-panic:show", map[string]any{"zoo_value": "cyclic", "file": file, "error": err.Error(), "stderr": normPanic(stderr.String())})
+		}
+	}
+}
+
 func init() {
+	// child process of cyclicProbe: renders a value that points to itself
+	Register("C05-cyclic-child", func(c *Ctx) {
+		debug.SetMaxStack(32 << 20)
+		n := &ZCycle{V: 1}
+		n.Next = n
+		var v any = n
+		file := c.Arg
+		if file == "" {
+			file = "t.js"
+		}
+		t, err := scriggo.BuildTemplate(scriggo.Files{file: []byte("{{ v }}")}, file, &scriggo.BuildOptions{Globals: zGlobals})
+		if err != nil {
+			fmt.Fprintln(os.Stderr, "build:", err)
+			os.Exit(3)
+		}
+		var b bytes.Buffer
+		err = t.Run(&b, map[string]any{"v": &v}, nil)
+		fmt.Fprintln(os.Stderr, "returned:", err)
+	})
+
 	Register("C05-show-cases", func(c *Ctx) {
 		for _, zv := range zooValues() {
 			if zv.userPanic {
@@ -786,6 +837,13 @@ func init() {
 			if only == "" {
 				return
 			}
+			if only == "cyclic" {
+				cyclicProbe(c)
+				return
+			}
+		} else if c.Thorough() {
+			// the recorded finding is replayed in the thorough tier only (a child process per probe)
+			cyclicProbe(c)
 		}
 		for _, z := range zctxs {
 			if onlyCtx != "" && z.name != onlyCtx {
